@@ -4,6 +4,7 @@ import (
 	"errors"
 	"net"
 	"os"
+	"strings"
 	"sync"
 	"time"
 )
@@ -90,6 +91,8 @@ type vhConn struct {
 	acked   int
 	id      int
 	closed  bool
+	addr    string // remote address ("" = loopback)
+	denied  bool   // the protected-mode refusal was written
 }
 
 var vhNativeAckFailed bool
@@ -115,6 +118,14 @@ func (c *vhConn) Read(p []byte) (int, error) {
 // Write is the moment the acknowledgement leaves the server.
 func (c *vhConn) Write(p []byte) (int, error) {
 	vgate("Write")
+	if strings.HasPrefix(string(p), "-DENIED") {
+		c.denied = true
+		return len(p), nil
+	}
+	if c.marker == nil {
+		c.acked++
+		return len(p), nil
+	}
 	want := string(vhEncodeCmd(c.marker))
 	ok := vhContains(vhLogContent(c.s), want)
 	if vnative() && !ok {
@@ -136,8 +147,16 @@ func (c *vhConn) LocalAddr() net.Addr { return vhAddr{} }
 // goroutine serves which connection.
 func (c *vhConn) RemoteAddr() net.Addr {
 	vregisterThread(c.id)
+	if c.addr != "" {
+		return vhAddrS(c.addr)
+	}
 	return vhAddr{}
 }
+
+type vhAddrS string
+
+func (a vhAddrS) Network() string { return "tcp" }
+func (a vhAddrS) String() string  { return string(a) }
 func (c *vhConn) SetDeadline(t time.Time) error      { return nil }
 func (c *vhConn) SetReadDeadline(t time.Time) error  { return nil }
 func (c *vhConn) SetWriteDeadline(t time.Time) error { return nil }
